@@ -4,7 +4,10 @@ The routing decision must never raise an error into the application. For an IPv6
 address "::1") _validate_ip accepts the string (ipaddress.ip_address parses IPv6), and _is_external_ip then builds an
 IPv4Address from it, which raises ipaddress.AddressValueError out of is_allowed - inside the `with fail_safe:` block of
 the hooks, where it is not one of the handled exception types, so it reaches the application.
-Exit status 1 while the defect is present, 0 otherwise.  usage: c19_ipv6_replay.py <repo-root>
+Second input class (same obligation): a host name with an empty label or a label longer than 63 characters ("a..com").
+socket.gethostbyname IDNA-encodes the name before resolving it and raises UnicodeError (a ValueError, not a socket error)
+out of _is_external_domain, whose handler only names socket.error.
+Exit status 1 while either defect is present, 0 otherwise.  usage: c19_ipv6_replay.py <repo-root>
 """
 import logging, sys, os
 root = sys.argv[1] if len(sys.argv) > 1 else "/repo"
@@ -23,4 +26,12 @@ for dest in ["::1", "fe80::1", "2001:db8::1"]:
             print("REPLAY loopback / link-local destination would be routed through the gateway"); failed = True
     except Exception as e:
         print("REPLAY is_allowed(%r) raised %s: %s" % (dest, type(e).__name__, e)); failed = True
+for dest in ["a..com", "x" * 64 + ".example.com", ".leading.dot.example"]:
+    try:
+        r = flt.is_allowed(dest, None)
+        print("REPLAY is_allowed(%r) = %r" % (dest if len(dest) < 40 else dest[:10] + "...", r))
+        if r:
+            print("REPLAY a destination that cannot be resolved would be routed through the gateway"); failed = True
+    except Exception as e:
+        print("REPLAY is_allowed(%r) raised %s: %s" % (dest if len(dest) < 40 else dest[:10] + "...", type(e).__name__, e)); failed = True
 sys.exit(1 if failed else 0)
